@@ -55,6 +55,48 @@ def program(tasks, frac):
     return "\n".join(out) + "\n"
 
 
+def program_local(tasks, frac, shared):
+    """the tasks are closures bound inside a function that is called from global scope (let / letrec bindings, not global
+    functions); `shared`: tasks with the same definition are one closure object scheduled several times - every
+    scheduling is an instance of its own and runs (the counter of the first counts for all of them)"""
+    out, first = [], {}
+    for i, t in enumerate(tasks, 1):
+        out.append(f"let c{i} = 0")
+    out.append("fn setup(){")
+    sched = []
+    for i, t in enumerate(tasks, 1):
+        key = (t["delay"], t["period"])
+        j = first.get(key, i) if shared else i
+        if j == i:
+            first.setdefault(key, i)
+            if t["period"] > 0:
+                out.append(f"  letrec k{i} = | | {{\n    c{i} = c{i} + 1\n    k{i}@(now + {t['period']})\n  }}")
+            else:
+                out.append(f"  let k{i} = | | {{\n    c{i} = c{i} + 1\n  }}")
+        # with `frac` the two schedulings fall on the same sample only after truncation (.2 and .7)
+        when = f"{t['delay']}.{'7' if i % 2 == 1 else '2'}" if frac else str(t["delay"])
+        sched.append(f"  k{j}@{when}")
+    out += sched
+    out.append("}")
+    out.append("setup()")
+    total = " + ".join(f"c{i}*{100 ** (i - 1)}" for i in range(1, len(tasks) + 1))
+    out.append(f"fn dsp(){{\n  {total}\n}}")
+    return "\n".join(out) + "\n"
+
+
+def expect_shared(tasks, outs):
+    first, rows = {}, []
+    owner = []
+    for i, t in enumerate(tasks):
+        owner.append(first.setdefault((t["delay"], t["period"]), i))
+    for row in outs:
+        merged = [0] * len(row)
+        for i, c in enumerate(row):
+            merged[owner[i]] += c
+        rows.append(sum(c * 100 ** i for i, c in enumerate(merged)))
+    return rows
+
+
 def expect(outs):
     return [sum(c * 100 ** i for i, c in enumerate(row)) for row in outs]
 
@@ -95,6 +137,15 @@ def run(tier):
         for frac in (False, True):
             reqs.append({"id": len(reqs), "src": program(tasks, frac), "n": len(outs), "backends": ["vm", "wasm"], "sched": True})
             meta.append((tasks, expect(outs), frac))
+            if all(t["src"] == "main" for t in tasks):
+                # the same configuration with closures bound in a function instead of global functions; and, when two
+                # definitions coincide, with one closure object scheduled twice
+                reqs.append({"id": len(reqs), "src": program_local(tasks, frac, False), "n": len(outs), "backends": ["vm", "wasm"], "sched": True})
+                meta.append((tasks, expect(outs), frac))
+                if len({(t["delay"], t["period"]) for t in tasks}) < len(tasks):
+                    reqs.append({"id": len(reqs), "src": program_local(tasks, frac, True), "n": len(outs), "backends": ["vm", "wasm"],
+                                 "sched": True})
+                    meta.append((tasks, expect_shared(tasks, outs), frac))
     res = vlib.run_harness("run", reqs, timeout_per_req=20)
     distinct = set()
     for req, out, crash in res:
